@@ -1,6 +1,8 @@
 CONSTANTS
   Classes = {"E", "W", "H", "C", "F1", "F1b", "F1a", "F1ba", "F0", "F0s", "X"}
   MaxLines = 3
+  NarrowClasses = {}
+  NarrowMaxLines = 0
   Emit = "none"
   MergeUnterminatedWs = FALSE
   DropFloatingComment = TRUE
